@@ -2,6 +2,7 @@ package main
 
 import (
 	"go/ast"
+	"go/constant"
 	"go/token"
 	"go/types"
 	"sync"
@@ -625,4 +626,32 @@ func indexExprText(c *Ctx, pos token.Pos) (string, string, bool) {
 	}
 	t, ok := idxText[pos]
 	return t[0], t[1], ok
+}
+
+// callersGiveLen: base is a parameter of fn (string or slice) and every caller
+// passes a value whose length is known to be at least need at the call: a
+// constant string, a value bounded by dominating tests there, or the caller's
+// own parameter for which the same holds one level up (depth <= 3).
+func callersGiveLen(fn *ssa.Function, base ssa.Value, need int64, depth int) bool {
+	p, ok := base.(*ssa.Parameter)
+	if !ok || depth > 3 || p.Parent() != fn {
+		return false
+	}
+	return callersEstablish(fn, func(call *ssa.CallCommon, at *ssa.BasicBlock) bool {
+		a := argOf(call, fn, p)
+		if a == nil {
+			return false
+		}
+		if k, isK := a.(*ssa.Const); isK && k.Value != nil && k.Value.Kind() == constant.String {
+			return int64(len(constant.StringVal(k.Value))) >= need
+		}
+		facts := domFacts(at, a)
+		if facts&lenLT(need) == 0 {
+			return true
+		}
+		if q, isP := a.(*ssa.Parameter); isP {
+			return callersGiveLen(q.Parent(), q, need, depth+1)
+		}
+		return false
+	})
 }
